@@ -18,6 +18,10 @@ CHECKS = {
    text="JSON is proved end to end in Coq on a model of the converter: pretty printer (serde_json layout) followed by an independent RFC 8259 parser is the identity, the Val->JSON mapping is lossless (numbers compared as exact rationals) and errors exactly on unrepresentable values; the model's bytes are compared with the implementation's on seeded value trees. YAML, TOML and yamlmulti are partial: their third-party emitters are exercised through independent decoders (PyYAML with YAML 1.2 core resolvers, tomllib) on the same trees",
    note="floats are carried as decimal text (no float arithmetic in Coq); serde_yaml / toml-rs emitters are outside the model; two listed known findings (JSON ints beyond 2^53, toml-rs arrays of tables)",
    technique="Coq proof (JSON printer/parser round trip + mapping) + differential correspondence; independent decoders for YAML/TOML"),
+ "C05": dict(category="proof",
+   text="partial until the printer obligations are integrated (then: Coq model of the AST printer, byte-exact for comment-free programs, and of the comment scheduler: every string, field name, integer and finite float literal and every keyword/operator the printer writes re-tokenizes to the same token; every comment group of the comment map is emitted exactly once whatever the order of the printer's calls; comment text is a fixed point). The property as a whole is decided against the implementation: programs of the C01 generator plus a pool of literal forms, re-laid-out at token level three ways (no comments / comment lines of their own between statements / comments anywhere incl. glued to keywords; random blanks, line breaks, indentation, trailing commas, quoted field names, blank comments), and every .ucg file of the repository: the formatted text must parse to the same AST (positions and quoting ignored), hold the same comment texts in the same order (independent scanner; the generator's ground truth for generated inputs) and, where the property claims it, be a fixed point",
+   note="the parser is not modelled, so 'same AST' is observed, not proved; comments are compared after trimming blanks at both ends",
+   technique="Coq proof (printer tokens re-lex; comment scheduler emits each group once) + re-parse / comment / fixed-point correspondence on laid-out programs and repository files"),
  "C08": dict(category="proof",
    text="Coq theorems over a model of the env/flags/exec converters and of POSIX word splitting and quote removal: for ALL byte strings a single-quoted value reads back as exactly one unaltered word and a double-quoted assignment value as the original string with nothing expanded; env yields every scalar field once and in order; flags and exec scripts read back as their specification. The escape chains are regenerated from src/convert/mod.rs on every run and proved (finite obligation over all 256 bytes) to compute the character-wise escapers the theorems use. Tied to the real converters byte-for-byte on all strings up to length 4 (quick) / 5 (thorough) over the quoting alphabet in six placements, and the outputs are read back by dash and bash",
    note="field, flag and variable names are assumed plain identifiers (the converters do not escape names); the shell model is validated against dash/bash on the same outputs; floats enter as their Display text",
